@@ -859,7 +859,7 @@ func genCase(seed int64, idx int) *Case {
 }
 
 // Part B: one scenario per (function, kind, channel) the table listed as not cancellable before the repairs
-// ca974a2 / c53a06a / 03584e7 (each was a confirmed hang; each must now halt), plus g.Wait (still listed)
+// ca974a2 / 0d6bd4f / 4176904 (each was a confirmed hang; each must now halt), plus g.Wait (still listed)
 func scenarios() []*Case {
 	full := func(name string) *Case {
 		return &Case{Scenario: name, Mode: "full", InitialHeight: 1, BlockTimeMs: 1000, DABlockTimeMs: 500, ChainLen: 8,
